@@ -306,7 +306,34 @@ def h_numbers(e, i):
     e.claim("canary:num", ia == {})
 
 
-HARNESSES = {"decode": h_decode, "encode": h_encode, "asm": h_asm, "sum": h_example_sum, "tuple": h_example_tuple, "numbers": h_numbers}
+def h_small_memory(e, size, data_first):
+    """a simulation configured with a smaller unified memory: variables go downward from *its* top,
+    names resolve there, and the memory keeps its configured size through load_program"""
+    from architecture_simulator.simulation.toy_simulation import ToySimulation
+
+    Tx = Text(e)
+    a, b, c = e.int("a", 0, 0xFFFF), e.int("b", 0, 0xFFFF), e.int("c", 0, 0xFFFF)
+    data = ".data\nx: .word %s\nt: .word %s, %s\n" % (Tx.num(a), Tx.hexnum(b), Tx.num(c))
+    text = ".text\nLDA t\nADD x\nSTO x\n"
+    sim = ToySimulation(unified_memory_size=size)
+    sim.load_program(data + text if data_first else text + data)
+    st = sim.state
+    top = size - 1
+    e.observe("range", [st.memory.address_range.start, st.memory.address_range.stop])
+    e.claim("memory-keeps-configured-size", (st.memory.address_range.start, st.memory.address_range.stop) == (0, size))
+    e.claim_eq("x-at-top", val(st.memory.read_halfword(top)), a)
+    e.claim_eq("t[0]-below", val(st.memory.read_halfword(top - 2)), b)
+    e.claim_eq("t[1]-ascending", val(st.memory.read_halfword(top - 1)), c)
+    ins = [st.memory.read_halfword(i) for i in range(3)]
+    e.claim_eq("LDA-t-operand", val(ins[0]) & 0xFFF, top - 2)
+    e.claim_eq("ADD-x-operand", val(ins[1]) & 0xFFF, top)
+    e.claim_eq("STO-x-operand", val(ins[2]) & 0xFFF, top)
+    sim.run()
+    e.claim_eq("program-result", val(st.memory.read_halfword(top)), zx(a + b, 16))
+    e.claim("canary:small", cond("==", val(st.memory.read_halfword(top)), a + b + 1))
+
+
+HARNESSES = {"decode": h_decode, "encode": h_encode, "asm": h_asm, "sum": h_example_sum, "tuple": h_example_tuple, "numbers": h_numbers, "small_memory": h_small_memory}
 
 
 def jobs(tier, seed):
@@ -329,6 +356,9 @@ def jobs(tier, seed):
                 out.append({"label": "asm-%s-d%d-%s" % (".".join(sk) or "empty", ndecl, {None: "nd", True: "df", False: "tf"}[df]), "harness": "asm", "args": {"lines": list(sk), "ndecl": ndecl, "data_first": df, "lower": bool(i % 2)}, "cost": 2 + n, "validate_every": 2})
     out.append({"label": "example-sum", "harness": "sum", "args": {}, "cost": 10})
     out.append({"label": "example-tuple", "harness": "tuple", "args": {}, "cost": 3})
+    for size in (256, 1024, 4096):
+        for df in (True, False):
+            out.append({"label": "small-memory-%d-%s" % (size, "df" if df else "tf"), "harness": "small_memory", "args": {"size": size, "data_first": df}, "cost": 2})
     return out
 
 
